@@ -320,17 +320,17 @@ impl NWorld {
                 }
             }
             128 => {
-                // (128 k now protocol cid addr user) + (xnonce c2s s2c) appended: a client in unsecure mode
-                if v.len() < 7 {
+                // (128 k tk now protocol cid addr user) + (xnonce c2s s2c) appended: a client in unsecure mode; its token gets index tk
+                if v.len() < 8 {
                     return bad;
                 }
-                let (k, now, protocol, cid) = (v[1].as_u64().unwrap_or(0), v[2].as_u64().unwrap_or(0), v[3].as_u64().unwrap_or(0), v[4].as_u64().unwrap_or(0));
-                let addr = match parse_addr(&v[5]) { Some(a) => a, None => return bad };
-                let user = match v[6].as_b().and_then(arr::<256>) { Some(u) => u, None => return bad };
+                let (k, tk, now, protocol, cid) = (v[1].as_u64().unwrap_or(0), v[2].as_u64().unwrap_or(0), v[3].as_u64().unwrap_or(0), v[4].as_u64().unwrap_or(0), v[5].as_u64().unwrap_or(0));
+                let addr = match parse_addr(&v[6]) { Some(a) => a, None => return bad };
+                let user = match v[7].as_b().and_then(arr::<256>) { Some(u) => u, None => return bad };
                 let r = catch_unwind(AssertUnwindSafe(|| {
                     NetcodeClient::new(Duration::from_nanos(now), ClientAuthentication::Unsecure { server_addr: addr, protocol_id: protocol, client_id: cid, user_data: Some(user) })
                 }));
-                let mut rv = v[..7].to_vec();
+                let mut rv = v[..8].to_vec();
                 match r {
                     Ok(Ok(c)) => {
                         let t = c.verif_connect_token().clone();
@@ -339,7 +339,7 @@ impl NWorld {
                         rv.push(b(&t.server_to_client_key));
                         let mut bytes = vec![];
                         t.write(&mut bytes).unwrap();
-                        self.tokens.insert(1000 + k, t);
+                        self.tokens.insert(tk, t);
                         self.clients.insert(k, c);
                         (l(rv), ok_tree(b(&bytes)))
                     }
